@@ -26,7 +26,8 @@ type Config struct {
 	Cap1   int   `json:"cap1"` // 0 = ark default
 	Cap2   int   `json:"cap2"` // 0 = not given
 	Filler int   `json:"filler"`
-	Perm   []int `json:"perm"` // registration order of the universe
+	Perm   []int `json:"perm"`           // registration order of the universe
+	Late   int   `json:"late,omitempty"` // the last Late types of Perm are registered only when first used (after tables exist)
 }
 
 // Op is one concrete, replayable operation.
